@@ -2,6 +2,7 @@ package p17
 
 import (
 	"fmt"
+	"os"
 	"strconv"
 	"strings"
 	"sync"
@@ -9,6 +10,8 @@ import (
 
 	"verifharness/internal/run"
 )
+
+var trace = os.Getenv("P17_TRACE") != ""
 
 var allKnown = []string{fpSplitMulti, fpSliceBeyond, fpForKey, fpSubNeg, fpForLeadEmpty}
 
@@ -57,6 +60,10 @@ func randomGroup(c *run.Ctx, dom string, from, count int) {
 		if cs == nil {
 			c.Count("unrenderable", 1)
 			continue
+		}
+		if trace {
+			t, _ := renderSeq(cs.AST)
+			fmt.Fprintf(os.Stderr, "case %s %d: %s\n", dom, i, t)
 		}
 		c.Evals(1)
 		c.Count("cases_"+dom, 1)
@@ -514,7 +521,11 @@ func runConc(c *run.Ctx, cs *Case) bool {
 	flags := map[string]bool{}
 	cands := make([][]string, len(cs.Ctxs))
 	for i := range cs.Ctxs {
-		cd, r, why := evalRef(cs.AST, &cs.Ctxs[i])
+		cd, r, why, big := evalRefBig(cs.AST, &cs.Ctxs[i])
+		if big {
+			c.Count("skipped_too_big", 1)
+			return true
+		}
 		for f := range r.flags {
 			flags[f] = true
 		}
